@@ -91,6 +91,11 @@ func bsBlockData(seed uint64, i int) ([]byte, uint64) {
 		data = nil
 	}
 	code := []uint64{mh.SHA2_256, mh.SHA2_256, mh.SHA2_512, mh.BLAKE2B_MIN + 31}[r.Intn(4)]
+	if n >= 4 && n <= 220 && r.Chance(0.2) {
+		// identity "hash": the digest is the data itself (inlined blocks). Only
+		// for 4..220 bytes: the index needs 4 key bytes and stores at most 255
+		code = mh.IDENTITY
+	}
 	return data, code
 }
 
@@ -311,6 +316,13 @@ func runBS(p *Plan, tape *simrt.Tape, opt RunOpt) *RunOut {
 				// close, flip one stored byte of the block's value on disk, reopen
 				want, present := d.model[key]
 				if !present || len(want) < 8 {
+					break
+				}
+				if b.code == mh.IDENTITY {
+					// the key of an identity block is its data: the same bytes
+					// also sit in the record's key, so the fault would corrupt
+					// the key (a different fault: the block becomes unfindable)
+					d.probes["flip-skipped-identity"]++
 					break
 				}
 				d.bs.Close()
